@@ -221,7 +221,7 @@ func ruleFDLocaliser(r *Run) {
 
 func init() {
 	register(&Rule{Name: "FWD-EOF-FILTERED", Floor: 2,
-		Doc: "in the stream forwarder an error produced by a RecvMsg/SendMsg inside a pump loop (where io.EOF is the regular way out: the peer finished) is returned to the front client only under the end-of-stream filter - a predicate that answers false for io.EOF, or a direct != io.EOF test: returned under a bare != nil test, the io.EOF that grpc-go's SendMsg yields once the backend has completed becomes status Unknown 'EOF' for an RPC the backend answered with OK",
+		Doc: "in the stream forwarder an error produced by a RecvMsg/SendMsg inside a pump loop (where io.EOF is the regular way out: the peer finished), or by any SendMsg on the backend stream (io.EOF: the backend already ended the call, RecvMsg has the status), is returned to the front client only under the end-of-stream filter - a predicate that answers false for io.EOF, or a direct != io.EOF test: returned under a bare != nil test, the io.EOF that grpc-go's SendMsg yields once the backend has completed becomes status Unknown 'EOF' for an RPC the backend answered with OK",
 		Run: ruleFwdEOFFiltered})
 }
 
@@ -345,6 +345,11 @@ func ruleFwdEOFFiltered(r *Run) {
 				if m := c.Common().Method.Name(); (m == "RecvMsg" || m == "SendMsg") && blockInLoop(c.Block()) {
 					pumped = c
 				}
+				// SendMsg on the backend stream yields io.EOF whenever the backend has already ended the call,
+				// first message included (found D43): its status is RecvMsg's to report
+				if m := c.Common().Method.Name(); m == "SendMsg" && strings.HasSuffix(typeString(c.Common().Value.Type()), "grpc.ClientStream") {
+					pumped = c
+				}
 			}
 			if pumped == nil {
 				return
@@ -367,7 +372,7 @@ func ruleFwdEOFFiltered(r *Run) {
 				return (same(x) && isIOEOF(y)) || (same(y) && isIOEOF(x))
 			})
 			r.check(filtered, key, rt.Pos(), "the pump's error is returned only where the end-of-stream filter let it through",
-				fmt.Sprintf("the forwarder returns the error of %s (made in a pump loop) without passing it through the end-of-stream filter: io.EOF - the peer simply finished - reaches the front client as status Unknown", shortName(calleeName(pumped))))
+				fmt.Sprintf("the forwarder returns the error of %s without passing it through the end-of-stream filter: io.EOF - the peer simply finished - reaches the front client as status Unknown", shortName(calleeName(pumped))))
 		})
 	}
 	if n == 0 {
